@@ -110,6 +110,9 @@ def _is_candidate(qn: str, fn, cls: str | None, outer, module: str, known: set) 
         return False
     decos = [ast.unparse(d) for d in fn.decorator_list]
     is_cm = any(d.split('.')[-1] in ('contextmanager', 'asynccontextmanager') for d in decos)
+    if decos == ['property']:
+        # a new read-only property: folded into its reads when its body comes down to one expression (see _property_expression)
+        return cls is not None and outer is None and not isinstance(fn, ast.AsyncFunctionDef) and _property_expression(fn) is not None
     if any(d not in ('staticmethod', 'classmethod') and d.split('.')[-1] not in ('contextmanager', 'asynccontextmanager') for d in decos):
         return False
     for n in _own_walk(fn):
@@ -120,6 +123,57 @@ def _is_candidate(qn: str, fn, cls: str | None, outer, module: str, known: set) 
     if fn.args.vararg or fn.args.kwarg:
         return False
     return True
+
+
+_PURE_OBSERVERS = {'qsize', 'len', 'is_set', 'done', 'cancelled', 'locked', 'isinstance', 'hasattr', 'getattr', 'max', 'min', 'bool', 'str', 'id', 'type', 'empty', 'full'}
+
+
+def _property_expression(fn) -> ast.AST | None:
+    """The one expression a property's body computes: `return E`, possibly after bindings `x = <side-effect-free expression>` of locals that are each bound once (written out)."""
+    body = _body_wo_doc(fn)
+    if not body or not isinstance(body[-1], ast.Return) or body[-1].value is None:
+        return None
+    env: dict[str, ast.AST] = {}
+    for st in body[:-1]:
+        if isinstance(st, ast.Assign) and len(st.targets) == 1 and isinstance(st.targets[0], ast.Name):
+            nm, val = st.targets[0].id, st.value
+        elif isinstance(st, ast.AnnAssign) and isinstance(st.target, ast.Name) and st.value is not None:
+            nm, val = st.target.id, st.value
+        else:
+            return None
+        if nm in env or any(isinstance(x, (ast.Await, ast.Yield, ast.YieldFrom, ast.NamedExpr, ast.Lambda, ast.ListComp, ast.SetComp, ast.DictComp, ast.GeneratorExp)) for x in ast.walk(val)):
+            return None
+        if any(isinstance(x, ast.Call) and (x.func.attr if isinstance(x.func, ast.Attribute) else getattr(x.func, 'id', None)) not in _PURE_OBSERVERS for x in ast.walk(val)):
+            return None  # only calls that observe (a size, a flag, a type) may move to where the local is read
+        env[nm] = _SubstNamesOnly(env).visit(copy.deepcopy(val))
+    return _SubstNamesOnly(env).visit(copy.deepcopy(body[-1].value))
+
+
+class _SubstNamesOnly(ast.NodeTransformer):
+    def __init__(self, env: dict[str, ast.AST]):
+        self.env = env
+
+    def visit_Name(self, node: ast.Name):  # noqa: N802
+        if isinstance(node.ctx, ast.Load) and node.id in self.env:
+            return ast.copy_location(copy.deepcopy(self.env[node.id]), node)
+        return node
+
+    def visit_Lambda(self, node):  # noqa: N802
+        return node
+
+
+def _fold_property(fn, refs: list[ast.AST], parents) -> None:
+    expr = _property_expression(fn)
+    if expr is None or not fn.args.args:
+        raise NotInlinable('property body is not one expression')
+    self_ = fn.args.args[0].arg
+    plan = []
+    for r in refs:
+        if not isinstance(r, ast.Attribute) or not _simple(r.value):
+            raise NotInlinable('property read on a receiver that is not a plain name / attribute chain')
+        plan.append((r, _Subst({self_: r.value}, {}).visit(copy.deepcopy(expr))))
+    for old, new in plan:
+        _replace(parents, old, ast.copy_location(new, old))
 
 
 # ------------------------------------------------------------------------------------------------ substitution
@@ -139,6 +193,29 @@ class _Subst(ast.NodeTransformer):
         if node.arg in self.rename:
             node.arg = self.rename[node.arg]
         return node
+
+    def _nested(self, node):
+        # a nested function: its own name follows the renaming of the scope it is defined in; its parameters shadow what is substituted outside
+        if not isinstance(node, ast.Lambda) and node.name in self.rename:
+            node.name = self.rename[node.name]
+        a = node.args
+        own = {x.arg for x in a.posonlyargs + a.args + a.kwonlyargs} | ({a.vararg.arg} if a.vararg else set()) | ({a.kwarg.arg} if a.kwarg else set())
+        for d in a.defaults + [d for d in a.kw_defaults if d is not None]:
+            self.visit(d)
+        saved = (self.mapping, self.rename)
+        self.mapping = {k: v for k, v in self.mapping.items() if k not in own}
+        self.rename = {k: v for k, v in self.rename.items() if k not in own}
+        if isinstance(node, ast.Lambda):
+            node.body = self.visit(node.body)
+        else:
+            node.body = [self.visit(st) for st in node.body]
+            node.decorator_list = [self.visit(d) for d in node.decorator_list]
+        self.mapping, self.rename = saved
+        return node
+
+    visit_FunctionDef = _nested  # noqa: N815
+    visit_AsyncFunctionDef = _nested  # noqa: N815
+    visit_Lambda = _nested  # noqa: N815
 
 
 def _simple(e: ast.AST) -> bool:
@@ -283,6 +360,21 @@ def fold_new_helpers(tree: ast.Module, module: str, known: set[tuple[str, str]] 
                 continue
             is_method = cls is not None and outer is None
             static = any(ast.unparse(d) == 'staticmethod' for d in fn.decorator_list)
+            if not is_method:
+                # the name must have this one binding in its scope: `f = g` / `if c: def f(): ...` makes f a variable, not a helper
+                sc = outer if outer is not None else tree
+                others = 0
+                for n in (_own_walk(sc) if outer is not None else ast.walk(sc)):
+                    if n is fn:
+                        continue
+                    if isinstance(n, ast.Name) and n.id == fn.name and isinstance(n.ctx, (ast.Store, ast.Del)):
+                        others += 1
+                    elif isinstance(n, (ast.FunctionDef, ast.AsyncFunctionDef, ast.ClassDef)) and n.name == fn.name and outer is not None:
+                        others += 1
+                    elif isinstance(n, ast.arg) and n.arg == fn.name and outer is not None and n in (outer.args.posonlyargs + outer.args.args + outer.args.kwonlyargs):
+                        others += 1
+                if others:
+                    continue
             # references
             refs: list[ast.AST] = []
             scope = outer if outer is not None else tree
@@ -298,24 +390,34 @@ def fold_new_helpers(tree: ast.Module, module: str, known: set[tuple[str, str]] 
                 continue
             body = _body_wo_doc(fn)
             try:
-                if any(ast.unparse(d).split('.')[-1] in ('contextmanager', 'asynccontextmanager') for d in fn.decorator_list):
+                if [ast.unparse(d) for d in fn.decorator_list] == ['property']:
+                    _fold_property(fn, refs, parents)
+                    how = 'property'
+                elif any(ast.unparse(d).split('.')[-1] in ('contextmanager', 'asynccontextmanager') for d in fn.decorator_list):
                     _fold_context_manager(fn, body, refs, parents, is_method, static)
                     how = 'context-manager'
-                elif len(body) == 1 and isinstance(body[0], ast.Return) and body[0].value is not None and not isinstance(fn, ast.AsyncFunctionDef):
-                    _fold_expression_function(fn, body[0].value, refs, parents, is_method, static)
+                elif not isinstance(fn, ast.AsyncFunctionDef) and (len(body) == 1 and isinstance(body[0], ast.Return) and body[0].value is not None or (len(body) > 1 and _property_expression(fn) is not None)):
+                    # (a body `x = <observation>; return E(x)` comes down to one expression as well)
+                    _fold_expression_function(fn, body[0].value if len(body) == 1 else _property_expression(fn), refs, parents, is_method, static)
                     how = 'expression'
                 else:
                     if _hoist_test_calls(fn, refs, parents):
                         changed = True
                         log.append(f'{module}:{qn} calls in if-tests hoisted into statement position')
                         break  # parents changed: restart this round, the helper is folded next time round
-                    _fold_statement_function(fn, body, refs, parents, is_method, static)
+                    left_as_calls = _fold_statement_function(fn, body, refs, parents, is_method, static)
                     how = 'statement'
             except NotInlinable as e:
                 log.append(f'{home}:{qn} left alone ({e})')
                 known = set(known) | {(home, qn)}
                 continue
             public = outer is None and not fn.name.startswith('_')
+            if how == 'statement' and left_as_calls:
+                # some uses sit inside expressions: those stay calls of the helper, which stays defined (and is not looked at again)
+                known = set(known) | {(home, qn)}
+                log.append(f'{home}:{qn} folded into {len(refs) - left_as_calls} of its {len(refs)} use(s) in {module} (statement form) — the definition stays: {left_as_calls} use(s) inside expressions remain calls')
+                changed = True
+                break
             if home != module:
                 log.append(f'{home}:{qn} folded into its {len(refs)} use(s) in {module} ({how} form) — the definition stays in its own module')
                 changed = True
@@ -389,15 +491,18 @@ def _replace(parents, old: ast.AST, new: ast.AST) -> None:
     raise NotInlinable('cannot locate node to replace')
 
 
-def _fold_statement_function(fn, body: list[ast.stmt], refs: list[ast.AST], parents, is_method: bool, static: bool) -> None:
+def _fold_statement_function(fn, body: list[ast.stmt], refs: list[ast.AST], parents, is_method: bool, static: bool) -> int:
+    """Returns the number of uses that were left as calls (inside an expression: nothing to splice statements into); the definition must stay then."""
     sites = []
+    skipped = 0
     for r in refs:
         p = parents.get(id(r))
         if not (isinstance(p, ast.Call) and p.func is r):
             raise NotInlinable('referenced without being called')
         pos = _stmt_position(p, parents)
         if pos is None:
-            raise NotInlinable('called inside an expression')
+            skipped += 1
+            continue
         kind, stmt, awaited = pos
         if isinstance(fn, ast.AsyncFunctionDef) != awaited:
             raise NotInlinable('async helper not awaited in place (or sync helper awaited)')
@@ -405,6 +510,8 @@ def _fold_statement_function(fn, body: list[ast.stmt], refs: list[ast.AST], pare
         if blk is None:
             raise NotInlinable('call statement not in a plain block')
         sites.append((p, kind, stmt, blk))
+    if not sites:
+        raise NotInlinable('called inside an expression')
     for call, kind, stmt, blk in sites:
         mapping, prelude = _bind(fn, call, is_method, static)
         caller = _enclosing_def(stmt, parents)
@@ -458,6 +565,7 @@ def _fold_statement_function(fn, body: list[ast.stmt], refs: list[ast.AST], pare
                 spliced = [ast.copy_location(ast.Assign(targets=[copy.deepcopy(target)], value=ast.Constant(value=None)), stmt)] + spliced
         i = next(k for k, x in enumerate(blk) if x is stmt)
         blk[i:i + 1] = spliced or [ast.copy_location(ast.Pass(), stmt)]
+    return skipped
 
 
 def _yield_block(stmts: list[ast.stmt], is_yield) -> tuple[list[ast.stmt], int, list[ast.stmt]] | None:
